@@ -741,6 +741,15 @@ func serverClose(c *Ctx) {
 	c.precedes(ruleP5, "Server.Close:quit-before-listener-close", g, closeQuit, lnClose, nil,
 		"close(quit) dominates the listener closes (the accept loops see quit when Accept fails)",
 		"a listener is closed before the quit channel: the accept loop treats the error as fatal / logs and returns an error")
+	// the session and topic stores are closed behind the teardown of the connections: teardown publishes the wills
+	// into the topic store and deletes the clean sessions from the session store
+	storeClose := ev{name: "the close of the session / topic store", m: func(call ssa.CallInstruction) bool {
+		return ir.IsMethod(call.Common(), pkgSessions, "Manager", "Close") || ir.IsMethod(call.Common(), pkgTopics, "Manager", "Close")
+	}}
+	if len(nodesMatching(g, storeClose.node())) > 0 {
+		c.afterNever(g, []paths.Node{g.Entry()}, "Server.Close:stores-closed-after-connections-stopped", storeClose, ev{name: "teardown of a connection", m: mCallee(r.Stop)}, c.P.Pos(fn.Pos()),
+			"a connection is torn down after the session / topic store was closed: its will finds no subscribers (or a nil tree) and its clean session is not deleted")
+	}
 	_ = effects.AtomicOp
 }
 
